@@ -33,3 +33,26 @@ Print Assumptions C02_rendered_formations_within_limits.
 Theorem C02_rendered_unrestricted_refuted : ~ (forall nw, stmt_render_C02_formations nw).
 Proof. exact render_C02_refuted. Qed.
 Print Assumptions C02_rendered_unrestricted_refuted.
+
+(** depot capacities: for every network loaded from an instance with non-negative capacities (JSON capacities are
+    unsigned), every schedule reachable by pipeline-shaped histories (valid Paths, fit between different tours, moved
+    segments not starting at a depot, valid transitions) and in particular every pipeline result respects the per-type
+    and total capacity of every real depot; the neighbourhood and the pipeline stay inside these histories; without the
+    restriction on the moved segment the invariant fails (known finding F1, proved as a refutation: a maintenance-only
+    tour of type 0 moved into a type-1 vehicle at a depot that admits only type 0) *)
+From RS Require Import Schedule SchedInv SchedStruct PipelineSched DepotStmts DepotFacts.
+Theorem C02_pipeline_depot_limits : forall i perm nw, load i perm = Ok nw -> inst_caps_nonneg i -> stmt_pipeline_depot_limits nw.
+Proof. exact pipeline_depot_limits_loaded. Qed.
+Print Assumptions C02_pipeline_depot_limits.
+Theorem C02_reachable_depot_limits : forall i perm nw, load i perm = Ok nw -> inst_caps_nonneg i -> stmt_nreachable_depot_limits nw.
+Proof. exact nreachable_depot_limits_loaded. Qed.
+Print Assumptions C02_reachable_depot_limits.
+Theorem C02_neighbourhood_keeps_segment_shape : forall nw, stmt_neighbors_nreachable nw.
+Proof. exact neighbors_nreachable. Qed.
+Print Assumptions C02_neighbourhood_keeps_segment_shape.
+Theorem C02_pipeline_histories : forall nw, stmt_pipeline_nreachable nw.
+Proof. exact pipeline_nreachable. Qed.
+Print Assumptions C02_pipeline_histories.
+Theorem C02_F1_depot_limits_fail_for_depot_started_segments : stmt_depot_limits_unrestricted_refuted.
+Proof. exact depot_limits_unrestricted_refuted. Qed.
+Print Assumptions C02_F1_depot_limits_fail_for_depot_started_segments.
